@@ -49,7 +49,7 @@ ASSUMPTIONS = ['IEEE overflow is outside the property: non-finite output of the 
 
 TOL_REL = 1e-9
 MODEL_TOKENS = {'l1', 'l1l2', 'l2', 'l2sq', 'ccl1', 'ccl1l2', 'ccl2sq', 'box', 'const', 'izero', 'linf',
-                'cclinf', 'simplex', 'sumc', 'huber', 'klcc', 'trans', 'argscale', 'lscale', 'quad',
+                'cclinf', 'simplex', 'sumc', 'huber', 'huberg', 'klcc', 'trans', 'argscale', 'lscale', 'quad',
                 'conj', 'sep', 'nil'}
 
 
@@ -188,6 +188,21 @@ def pow2(x):
     return m == 0.5
 
 
+def const_weight(sp):
+    """The constant weight of the space as the code reads it (`_const_weight`): weighting.const
+    (cell volume for discretised spaces), times the base space's for power spaces, else 1."""
+    const = getattr(getattr(sp, 'weighting', None), 'const', None)
+    if is_pspace(sp):
+        if const is None or not sp.is_power_space or len(sp) == 0:
+            return 1.0
+        return float(const) * const_weight(sp[0])
+    return 1.0 if const is None else float(const)
+
+
+def has_array_weights(sp):
+    return getattr(getattr(sp, 'weighting', None), 'array', None) is not None
+
+
 def box_eval(lo, hi):
     def ev(z):
         v = flat(z)
@@ -244,7 +259,8 @@ def build(spec):
             p = args[0]
             f = S.LpNorm(sp, p)
             lab = 'LpNorm({})'.format(p)
-            tree = {1: ['l1', '1', '~'], 2: ['l2', '1', '~'], 'inf': ['linf']}.get(p)
+            tree = {1: ['l1', '1', '~'], 2: ['l2', '1', '~'],
+                    'inf': ['linf', fs(const_weight(sp))]}.get(p)
             if p == 'inf':
                 f = S.LpNorm(sp, np.inf)
             vec = p == 1
@@ -253,7 +269,7 @@ def build(spec):
             f = S.IndicatorLpUnitBall(sp, np.inf if p == 'inf' else p)
             lab = 'IndicatorLpUnitBall({})'.format(p)
             tree = {'inf': ['ccl1', fs(lam_f(1)), '~'], 2: ['conj', 'l2', '1', '~'],
-                    1: ['cclinf']}.get(p)
+                    1: ['cclinf', fs(const_weight(sp))]}.get(p)
             ind = True
             vec = p == 'inf'
         elif kind == 'ConstantFunctional':
@@ -291,15 +307,16 @@ def build(spec):
             f = getattr(S, kind)(sp, elem(sp, g))
         elif kind == 'IndicatorSimplex':
             f = S.IndicatorSimplex(sp, args[0])
-            tree, ind = ['simplex', fs(float(args[0]))], True
+            tree, ind = ['simplex', str(int(has_array_weights(sp))), fs(float(args[0]))], True
         elif kind == 'IndicatorSumConstraint':
             f = S.IndicatorSumConstraint(sp, args[0])
-            tree, ind = ['sumc', fs(float(args[0]))], True
-            exact = lambda sg: n in (1, 2, 4, 8)  # noqa
+            tree, ind = ['sumc', str(int(has_array_weights(sp))), fs(float(args[0]))], True
+            exact = lambda sg: n in (1, 2, 4, 8) and not has_array_weights(sp)  # noqa
         elif kind == 'Huber':
             f = S.Huber(sp, args[0])
             lab = 'Huber' + ('(product space)' if is_pspace(sp) else '')
-            tree = None if is_pspace(sp) else ['huber', fs(float(args[0]))]
+            tree = (['huberg', str(len(sp)), fs(float(args[0]))] if is_pspace(sp) else
+                    ['huber', fs(float(args[0]))])
         elif kind == 'GroupL1Norm':
             p = args[0]
             f = S.GroupL1Norm(sp, p)
@@ -603,13 +620,11 @@ EVALUABLE_TREE_LEAVES = ['L1Norm', 'L2Norm', 'L2NormSquared', 'LpNorm:inf', 'Ind
 
 
 def known_bad(name, k):
-    """(leaf, space) combinations that fail on their own (open findings C07-F1/F3/F4): kept out
+    """(leaf, space) combinations that fail on their own (open finding C07-F1: array weights): kept out
     of the expression trees so that the tree stream tests the calculus rules and a tree
     violation is never explained away by a leaf finding.  They stay in the leaf enumeration."""
     w = weights(k)
     if name in ('LpNorm:inf', 'IndicatorLpUnitBall:1'):
-        return any(v != 1.0 for v in w)
-    if name in ('IndicatorSimplex', 'IndicatorSumConstraint', 'Huber'):
         return any(v != w[0] for v in w)
     return False
 
@@ -1207,7 +1222,8 @@ def run(ctx, deep=False):
     for rec in recs:
         case, sk, sg, xc, xlist = rec[:5]
         if case.tree and case.tree[0] == 'simplex':
-            slines.append('simplex r={} x={}'.format(case.tree[1], fl(xlist)))
+            slines.append('simplex r={} x={}'.format(case.tree[2], fl(xlist)) +
+                          (' w=' + fl(weights(case.skey)) if case.tree[1] == '1' else ''))
             sre.append(rec)
     souts = core.run_driver('C07', slines)
     for rec, ans in zip(sre, souts):
